@@ -253,6 +253,10 @@ impl Felt {
     #[verifier::external_body]
     pub exec const THREE: Felt ensures Self::THREE@ == 3 { Felt { _x: [0u64; 4] } }
 
+    /// placeholder value for generated `exec const` items (their bodies are never verified nor run)
+    #[verifier::external_body]
+    pub const fn stub() -> Felt { Felt { _x: [0u64; 4] } }
+
     #[verifier::external_body]
     pub fn to_bigint(&self) -> (r: BigInt) ensures r.v@ == self@ as int { unimplemented!() }
     #[verifier::external_body]
